@@ -2,7 +2,7 @@
 preflibtools, converted by the real code and compared with the Lean model fed the abstract instance)."""
 import json
 import numpy as np
-from harness.common import pmap, lean_query, guard, optn
+from harness.common import pmap, lean_query, guard, optn, safe_judge
 from harness.c01 import chunks
 
 LEVEL = "proof"
@@ -170,6 +170,7 @@ def lean_lines(inst, res):
     return L
 
 
+@safe_judge
 def judge(R, it, res, answers):
     inst = it["inst"]
     kind = inst["kind"]
